@@ -344,6 +344,17 @@ theorem NodupKeys.flushB {t : Table α} (h : NodupKeys t) (b : Bounds α) :
     NodupKeys (Table.flushB b t) := by
   unfold NodupKeys; rw [keys_flushB]; exact h
 
+theorem keys_assertAll (b : Bounds α) (t : Table α) : Table.keys (Table.assertAll b t) = Table.keys t :=
+  keys_map (fun r => ⟨r.g, b, b⟩) (fun _ => rfl) t
+
+theorem find?_assertAll (b : Bounds α) (t : Table α) (g : Gr) :
+    Table.find? (Table.assertAll b t) g = (Table.find? t g).map fun r => ⟨r.g, b, b⟩ :=
+  find?_map (fun r => ⟨r.g, b, b⟩) (fun _ => rfl) t g
+
+theorem NodupKeys.assertAll {t : Table α} (h : NodupKeys t) (b : Bounds α) :
+    NodupKeys (Table.assertAll b t) := by
+  unfold NodupKeys; rw [keys_assertAll]; exact h
+
 theorem addData_keyPres (g : Gr) (b : Bounds α) (r : Row α) :
     (if r.g == g then (⟨g, b, b⟩ : Row α) else r).g = r.g := by
   by_cases h : r.g = g
